@@ -25,11 +25,19 @@ def generate(seed):
     knobs["risky_callables"] = r.random() < 0.1
     g = G.Gen(r, knobs)
     d0 = g.top_doc()
+    mixed = isinstance(d0, dict) and r.random() < 0.3
+    if mixed:
+        # a mapping whose keys have several types (all legal YAML/JSON-like keys)
+        d0["mix"] = {k: g.scalar() for k in r.sample(["a", "b", 0, 2, 1.5, True, None, ""], r.randint(2, 5))}
     docs = [d0] + [g.variant(d0) for _ in range(r.randint(1, 3))]
     ctx = g.context(docs)
     n_rules = r.choice([0, 1, 2, 2, 3, 3, 4, 5, 6]) + (r.randint(1, 4) if big(r) else 0)
     rules = []
-    for _ in range(n_rules):
+    if mixed:
+        # a wildcard rule over it that usually fails at several keys
+        rules.append(("rule", ("path", (("prim", "mix"), ("map", ())), None, None), r.choice([("leaf", "Value", "equal_to", (("v", "no such value"),), ()), ("leaf", "Value.dtype", "equal_to", (("ty", "list"),), ()), g.value_leaf(ctx)]), None, None))
+        n_rules = max(n_rules, 1)
+    for _ in range(n_rules - len(rules)):
         if rules and r.random() < 0.12:
             rules.append(r.choice(rules))  # a duplicate rule (equal, distinct object)
             continue
@@ -40,6 +48,7 @@ def generate(seed):
                 continue
         t = g.rule(ctx, cast_ok=False, mods=True)
         rules.append(("rule", t[1], t[2], None, t[4]))
+    n_rules = len(rules)
     idx = list(range(n_rules))
     perms = [tuple(idx), tuple(reversed(idx))]
     for _ in range(r.randint(0, 3)):
